@@ -1229,6 +1229,10 @@ func (f *Field) importValue(columnIDs []uint64, values []int64, options *ImportO
 		}(); err != nil {
 			return errors.Wrap(err, "increasing bsi bit depth")
 		}
+	} else {
+		// Write every bit of the field so that higher bits of the values
+		// being replaced are cleared.
+		requiredDepth = bsig.BitDepth
 	}
 
 	// Split import data by fragment.
